@@ -85,7 +85,9 @@ class ServiceAccessPoint(object):
             return insertable
 
     def remove_socket(self, socket):
-        assert socket.addr == self.addr
+        if socket.addr != self.addr:
+            # unbound by the link termination in the meantime
+            return socket.close()
         socket.close()
         with self.llc.lock:
             try:
@@ -411,11 +413,12 @@ class LogicalLinkController(object):
                 self.mac.deactivate(data=bytearray(b"\x01\x40"))
         finally:
             # shutdown local services, also if the device is gone
-            for i in range(63, -1, -1):
-                if not self.sap[i] is None:
-                    log.debug("closing service access point %d" % i)
-                    self.sap[i].shutdown()
-                    self.sap[i] = None
+            with self.lock:
+                for i in range(63, -1, -1):
+                    if not self.sap[i] is None:
+                        log.debug("closing service access point %d" % i)
+                        self.sap[i].shutdown()
+                        self.sap[i] = None
             self.link.SHUTDOWN = True
 
     def exchange(self, send_pdu, timeout):
@@ -826,7 +829,14 @@ class LogicalLinkController(object):
             raise err.Error(errno.EOPNOTSUPP)
         while True:
             client = socket.accept()
-            self.sap[client.addr].insert_socket(client)
+            with self.lock:
+                sap = (None if client.addr is None
+                       else self.sap[client.addr])
+                if sap is not None:
+                    sap.insert_socket(client)
+            if sap is None:
+                # the link was terminated while accept() was at work
+                raise err.Error(errno.EPIPE)
             log.debug("new data link connection ({0} <=== {1})"
                       .format(client.addr, client.peer))
             if client.send_miu > self.cfg['send-miu']:
@@ -887,8 +897,10 @@ class LogicalLinkController(object):
     def close(self, socket):
         if not isinstance(socket, tco.TransmissionControlObject):
             raise err.Error(errno.ENOTSOCK)
-        if socket.is_bound:
-            self.sap[socket.addr].remove_socket(socket)
+        with self.lock:
+            sap = self.sap[socket.addr] if socket.is_bound else None
+        if sap is not None:
+            sap.remove_socket(socket)
         else:
             socket.close()
 
